@@ -13,6 +13,7 @@ import (
 	"strconv"
 	"strings"
 	"testing"
+	"time"
 
 	"github.com/lindb/common/pkg/logger"
 	"go.uber.org/zap/zapcore"
@@ -21,6 +22,7 @@ import (
 	_ "verifsim/h/ids"
 	_ "verifsim/h/kvs"
 	_ "verifsim/h/master"
+	_ "verifsim/h/mdata"
 	_ "verifsim/h/pipe"
 	_ "verifsim/h/repl"
 	_ "verifsim/h/walq"
@@ -42,6 +44,7 @@ func TestWorker(t *testing.T) {
 	if !strings.Contains(os.Getenv("GODEBUG"), "randseednop=0") {
 		os.Setenv("GODEBUG", strings.TrimPrefix(os.Getenv("GODEBUG")+",randseednop=0", ","))
 	}
+	time.Local = time.UTC // segment names are parsed in the local zone
 	logger.RunningAtomicLevel.SetLevel(zapcore.FatalLevel + 1)
 	out := os.Stdout
 	if p := os.Getenv("VERIF_OUT"); p != "" {
